@@ -509,6 +509,36 @@ def sig(conds, events, upd, kind, value):
             repr(norm(value)) if kind == "exit" else None)
 
 
+def assignments(exp_vars, locals_, init, pnames):
+    """all bijections state variable -> carried local that agree with the values the locals have before the loop; the
+    declaration order comes first, so that it is the one reported when none fits (a reordering of the macro's internal
+    variables is not a finding)"""
+    want = {}
+    for name, w in exp_vars:
+        try:
+            want[name] = norm(initial_term(name, w, pnames))
+        except Exception:
+            want[name] = None
+    out = []
+
+    def fits(name, l):
+        got = init.get(l)
+        return got is None or want[name] is None or norm(got) == want[name]
+
+    def rec(i, used, cur):
+        if len(out) >= 24:
+            return
+        if i == len(exp_vars):
+            out.append(list(cur))
+            return
+        name = exp_vars[i][0]
+        for l in locals_:
+            if l not in used and fits(name, l):
+                rec(i + 1, used | {l}, cur + [l])
+    rec(0, frozenset(), [])
+    return out
+
+
 def validate(ctx, prog, ch, idx, pnames, src_ty, K):
     key = ch.name()
     b = prog.get("%s::w%d" % (W, idx))
@@ -585,53 +615,57 @@ def validate(ctx, prog, ch, idx, pnames, src_ty, K):
         ctx.violation("TV", key + "|state", "chain %s: generated loop carries %d state variables, the reference schema has %d (%s)" % (
             key, len(carried), len(exp_vars), [v for v, _ in exp_vars]), detail={"carried": [b.local_name(l) or l for l in carried]})
         return False
-    V = {name: ("L", l) for (name, _), l in zip(exp_vars, carried)}
-    for n, i in all_vars:
-        if n not in V:
-            V[n] = initial_term(n, i, pnames)      # not loop state: keeps the value it had before the loop
     # initial values
     init = {}
     for p in loop_paths:
         for e in p.events:
             if e[0] == "loop":
                 init = dict(e[2])
-    for (name, want), l in zip(exp_vars, carried):
-        got = init.get(l)
-        if got is None:
-            continue
-        if isinstance(want, str):
-            if "('p'," not in repr(got):
-                ctx.violation("TV", key + "|init|" + name, "chain %s: state %s starts as %s, expected the corresponding argument" % (key, name, show(got)))
-        elif norm(got) != norm(want):
-            ctx.violation("TV", key + "|init|" + name, "chain %s: state %s starts as %s, expected %s" % (key, name, show(got), show(want)))
-    exp = reference(ch, V, src_ty, K)
-    exp_sigs = {}
-    for r in exp:
-        upd = {V[k][1]: v for k, v in r.upd.items() if v != V[k] and V[k][0] == "L"}
-        exp_sigs[sig(r.conds, r.events, upd, r.kind, r.value)] = r
-    got_sigs = {}
-    for p in loop_paths:
-        if p.kind == "panic":
-            continue          # arithmetic overflow / unreachable asserts are outside the schema
-        evs = [e[2] for e in p.events if e[0] == "call" and e[1].startswith(W + "::")]
-        kind = "back" if p.kind == "back" else "exit"
-        upd = {}
-        if kind == "back":
-            for l in carried:
-                v = p.env.get(l, ("L", l))
-                if v != ("L", l):
-                    upd[l] = v
-        got_sigs[sig(p.conds, evs, upd, kind, p.value)] = p
-    missing = [s for s in exp_sigs if s not in got_sigs]
-    extra = [s for s in got_sigs if s not in exp_sigs]
-    if missing or extra:
-        def d(s):
-            return {"conds": sorted(map(str, s[0]))[:8], "events": [str(e)[:90] for e in s[1]], "updates": s[2], "end": s[3], "value": s[4]}
-        ctx.violation("TV", key, "chain `%s`: the generated loop's iteration relation differs from the std-derived schema (%d expected paths not "
-                      "generated, %d generated paths not expected)" % (key, len(missing), len(extra)),
-                      detail={"source": source_of(ch, idx, K)[0], "not_generated": [d(s) for s in missing[:3]], "unexpected": [d(s) for s in extra[:3]]})
+    cands = assignments(exp_vars, carried, init, pnames)
+    if not cands:
+        for (name, want), l in zip(exp_vars, carried):
+            got = init.get(l)
+            if got is not None and norm(got) != norm(initial_term(name, want, pnames)):
+                ctx.violation("TV", key + "|init|" + name, "chain %s: state %s starts as %s, expected %s" % (
+                    key, name, show(got), show(initial_term(name, want, pnames))))
         return False
-    return True
+    first = None
+    for order in cands:
+        V = {name: ("L", l) for (name, _), l in zip(exp_vars, order)}
+        for n, i in all_vars:
+            if n not in V:
+                V[n] = initial_term(n, i, pnames)      # not loop state: keeps the value it had before the loop
+        exp_sigs = {}
+        for r in reference(ch, V, src_ty, K):
+            upd = {V[k][1]: v for k, v in r.upd.items() if v != V[k] and V[k][0] == "L"}
+            exp_sigs[sig(r.conds, r.events, upd, r.kind, r.value)] = r
+        got_sigs = {}
+        for p in loop_paths:
+            if p.kind == "panic":
+                continue          # arithmetic overflow / unreachable asserts are outside the schema
+            evs = [e[2] for e in p.events if e[0] == "call" and e[1].startswith(W + "::")]
+            kind = "back" if p.kind == "back" else "exit"
+            upd = {}
+            if kind == "back":
+                for l in carried:
+                    v = p.env.get(l, ("L", l))
+                    if v != ("L", l):
+                        upd[l] = v
+            got_sigs[sig(p.conds, evs, upd, kind, p.value)] = p
+        missing = [s for s in exp_sigs if s not in got_sigs]
+        extra = [s for s in got_sigs if s not in exp_sigs]
+        if not missing and not extra:
+            return True
+        if first is None:
+            first = (missing, extra)
+    missing, extra = first
+
+    def d(s):
+        return {"conds": sorted(map(str, s[0]))[:8], "events": [str(e)[:90] for e in s[1]], "updates": s[2], "end": s[3], "value": s[4]}
+    ctx.violation("TV", key, "chain `%s`: the generated loop's iteration relation differs from the std-derived schema (%d expected paths not "
+                  "generated, %d generated paths not expected)" % (key, len(missing), len(extra)),
+                  detail={"source": source_of(ch, idx, K)[0], "not_generated": [d(s) for s in missing[:3]], "unexpected": [d(s) for s in extra[:3]]})
+    return False
 
 
 OPAQUE = {"%s::%s::%s" % (W, s_, d_) for s_ in ("Src", "SrcR", "Oth", "Sub", "SrcS") for d_ in ("next", "next_back")}
@@ -738,31 +772,19 @@ def validate_nested(ctx, prog, ch, idx, pnames, src_ty, K):
             key, len(car_o), len(car_i), len(exp_o), len(exp_i), [v for v, _ in exp_o], [v for v, _ in exp_i]),
             detail={"outer": [b.local_name(l) or l for l in car_o], "inner": [b.local_name(l) or l for l in car_i], "source": source_of(ch, idx, K)[0]})
         return False
-    V = {n: ("L", l) for (n, _), l in zip(exp_o, car_o)}
-    V2 = {n: ("L", l, H2) for (n, _), l in zip(exp_i, car_i)} if has_inner else None
-    if V2:
-        for n in V2:
-            if n in V and V[n][1] != V2[n][1]:
-                ctx.violation("TV", key + "|state", "chain %s: state %s is local %s in the outer loop but %s in the inner loop" % (key, n, V[n][1], V2[n][1]))
-                return False
-    for n, i in all_vars:
-        if n not in V and n != "SUB":
-            V[n] = initial_term(n, i, pnames)      # not loop state: keeps the value it had before the loops
-    # initial values at the outer header
     init = {}
     for p in loop_paths:
         for e in p.events:
             if e[0] == "loop" and e[1] == H1:
                 init = dict(e[2])
-    for (name, want), l in zip(exp_o, car_o):
-        got = init.get(l)
-        if got is None:
-            continue
-        if isinstance(want, str):
-            if "('p'," not in repr(got):
-                ctx.violation("TV", key + "|init|" + name, "chain %s: state %s starts as %s, expected the corresponding argument" % (key, name, show(got)))
-        elif norm(got) != norm(want):
-            ctx.violation("TV", key + "|init|" + name, "chain %s: state %s starts as %s, expected %s" % (key, name, show(got), show(want)))
+    cands = assignments(exp_o, car_o, init, pnames)
+    if not cands:
+        for (name, want), l in zip(exp_o, car_o):
+            got = init.get(l)
+            if got is not None and norm(got) != norm(initial_term(name, want, pnames)):
+                ctx.violation("TV", key + "|init|" + name, "chain %s: state %s starts as %s, expected %s" % (
+                    key, name, show(got), show(initial_term(name, want, pnames))))
+        return False
 
     def nsig(conds1, ev1, pre, conds2, ev2, upd, kind, value):
         return (frozenset(norm_cond(c) for c in conds1), tuple(norm(e) for e in ev1),
@@ -770,15 +792,6 @@ def validate_nested(ctx, prog, ch, idx, pnames, src_ty, K):
                 frozenset(norm_cond(c) for c in conds2), tuple(norm(e) for e in ev2),
                 tuple(sorted((k, repr(norm(v))) for k, v in upd.items())) if kind != "exit" else (), kind,
                 repr(norm(value)) if kind == "exit" else None)
-    exp_sigs = {}
-    for r in reference(ch, V, src_ty, K, V2):
-        nc, ne = r.mark if r.mark is not None else (len(r.conds), len(r.events))
-        pre = {V2[k][1]: v for k, v in r.pre.items()} if V2 else {}
-        if r.kind == "back2":
-            upd = {V2[k][1]: v for k, v in r.upd2.items() if v != V2[k]}
-        else:
-            upd = {V[k][1]: v for k, v in r.upd.items() if k in V and isinstance(V[k], tuple) and V[k][0] == "L" and v != V[k]}
-        exp_sigs[nsig(r.conds[:nc], r.events[:ne], pre, r.conds[nc:], r.events[ne:], upd, r.kind, r.value)] = r
     got_sigs = {}
     for p in loop_paths:
         ev1, ev2, pre = [], [], {}
@@ -813,17 +826,50 @@ def validate_nested(ctx, prog, ch, idx, pnames, src_ty, K):
         else:
             kind = "exit"
         got_sigs[nsig(conds1, ev1, pre, conds2, ev2, upd, kind, p.value)] = p
-    missing = [s_ for s_ in exp_sigs if s_ not in got_sigs]
-    extra = [s_ for s_ in got_sigs if s_ not in exp_sigs]
-    if missing or extra:
-        def d(s_):
-            return {"outer_conds": sorted(map(str, s_[0]))[:8], "outer_events": [str(e)[:90] for e in s_[1]], "inner_entry": s_[2],
-                    "inner_conds": sorted(map(str, s_[3]))[:8], "inner_events": [str(e)[:90] for e in s_[4]], "updates": s_[5], "end": s_[6], "value": s_[7]}
-        ctx.violation("TV", key, "chain `%s`: the generated loops' iteration relations differ from the std-derived schema (%d expected paths not "
-                      "generated, %d generated paths not expected)" % (key, len(missing), len(extra)),
-                      detail={"source": source_of(ch, idx, K)[0], "not_generated": [d(s_) for s_ in missing[:3]], "unexpected": [d(s_) for s_ in extra[:3]]})
+    first = None
+    inner_shared = [n for n, _ in exp_i if n != "SUB"]
+    for order in cands:
+        V = {n: ("L", l) for (n, _), l in zip(exp_o, order)}
+        V2 = None
+        if has_inner:
+            if any(n not in V or V[n][1] not in car_i for n in inner_shared):
+                continue
+            V2 = {n: ("L", V[n][1], H2) for n in inner_shared}
+            rest = [l for l in car_i if l not in {V[n][1] for n in inner_shared}]
+            if len(rest) != 1:
+                continue
+            V2["SUB"] = ("L", rest[0], H2)
+        for n, i in all_vars:
+            if n not in V and n != "SUB":
+                V[n] = initial_term(n, i, pnames)      # not loop state: keeps the value it had before the loops
+        exp_sigs = {}
+        for r in reference(ch, V, src_ty, K, V2):
+            nc, ne = r.mark if r.mark is not None else (len(r.conds), len(r.events))
+            pre = {V2[k][1]: v for k, v in r.pre.items()} if V2 else {}
+            if r.kind == "back2":
+                upd = {V2[k][1]: v for k, v in r.upd2.items() if v != V2[k]}
+            else:
+                upd = {V[k][1]: v for k, v in r.upd.items() if k in V and isinstance(V[k], tuple) and V[k][0] == "L" and v != V[k]}
+            exp_sigs[nsig(r.conds[:nc], r.events[:ne], pre, r.conds[nc:], r.events[ne:], upd, r.kind, r.value)] = r
+        missing = [s_ for s_ in exp_sigs if s_ not in got_sigs]
+        extra = [s_ for s_ in got_sigs if s_ not in exp_sigs]
+        if not missing and not extra:
+            return True
+        if first is None:
+            first = (missing, extra)
+    if first is None:
+        ctx.violation("TV", key + "|state", "chain %s: the state the inner loop carries is not the state the outer loop hands to it" % key,
+                      detail={"outer": [b.local_name(l) or l for l in car_o], "inner": [b.local_name(l) or l for l in car_i]})
         return False
-    return True
+    missing, extra = first
+
+    def d(s_):
+        return {"outer_conds": sorted(map(str, s_[0]))[:8], "outer_events": [str(e)[:90] for e in s_[1]], "inner_entry": s_[2],
+                "inner_conds": sorted(map(str, s_[3]))[:8], "inner_events": [str(e)[:90] for e in s_[4]], "updates": s_[5], "end": s_[6], "value": s_[7]}
+    ctx.violation("TV", key, "chain `%s`: the generated loops' iteration relations differ from the std-derived schema (%d expected paths not "
+                  "generated, %d generated paths not expected)" % (key, len(missing), len(extra)),
+                  detail={"source": source_of(ch, idx, K)[0], "not_generated": [d(s_) for s_ in missing[:3]], "unexpected": [d(s_) for s_ in extra[:3]]})
+    return False
 
 
 def enumerate_chains(ctx):
